@@ -244,7 +244,7 @@ class Ctx:
             t.nontriv(hash(repr((kind, before["subs"], before["total"]))))
 
 
-def profiles(tier, seed):
+def profiles(tier, seed, light=False):
     P = []
     ch = ["bytes", "path"]
     base = dict(keys=["a", "b", "c", "d"], channels=ch, maxsubs=4)
@@ -261,6 +261,8 @@ def profiles(tier, seed):
             P.append(dict(base, rotating=False, M=M, K=K, est=est, fpr=fpr, H=H, ntables=16, maxdepth=6, channels=["bytes", "path", "fileobj"], maxsubs=5))
             for q in (1, 2, 3):
                 P.append(dict(base, rotating=True, qmax=q, M=M, K=K, est=est, fpr=fpr, H=H, ntables=10, maxdepth=6, channels=["bytes", "path"], maxsubs=5))
+    if light and tier == "quick":
+        P = [dict(p, ntables=min(p["ntables"], 2)) for p in P]
     for i, p in enumerate(P):
         assert GEOM[(p["M"], p["K"])] == (p["est"], p["fpr"]), p
         p["tables"] = gen_tables(p["keys"], p["M"], p["K"], p["H"], p["ntables"], seed * 1000 + 900 + i)
@@ -275,7 +277,7 @@ INVPROP = {"SubCap": None, "Growth": "C09", "TotalIsCalls": "C14", "QueueBound":
 def run(focus, tier, seed):
     total = Tally(focus)
     jobs = []
-    for p in profiles(tier, seed):
+    for p in profiles(tier, seed, focus in ("C05", "C14", "C19")):
         if focus in FOCUS_FILTER and not FOCUS_FILTER[focus](p):
             continue
         tabs = p["tables"]
